@@ -515,8 +515,10 @@ func (s *Server) Unlock(passphrase []byte) error {
 
 // Signers returns the available singers from the in-memory certs and underlying agent.
 func (s *Server) Signers() ([]ssh.Signer, error) {
-	s.mu.RLock()
-	defer s.mu.RUnlock()
+	// filter() prunes the certificate tables and the loop below fills the upstream cache,
+	// so the exclusive lock is required.
+	s.mu.Lock()
+	defer s.mu.Unlock()
 
 	if s.locked {
 		return nil, errors.New("agent is locked")
@@ -568,6 +570,10 @@ func (s *Server) Signers() ([]ssh.Signer, error) {
 
 // Extension processes a custom extension request.
 func (s *Server) Extension(extensionType string, contents []byte) ([]byte, error) {
+	// The request travels over the single connection to the underlying agent, like Forward.
+	s.mu.Lock()
+	defer s.mu.Unlock()
+
 	return s.agent.Extension(extensionType, contents)
 }
 
